@@ -233,6 +233,12 @@ def run_e2e(ctx, nfiles):
                 want += [(tc['name'], f['name'], 'fail') for f in tc['failed_rules']]
             if sorted(marks) != sorted(want):
                 ctx.failing('JUnit marks disagree with the JSON report', dict(info, junit=marks, json=want), found=True)
+            nfail = sum(1 for m in want if m[2] == 'fail')
+            for el in [root] + list(root.iter('testsuite')):
+                if el.get('failures') is not None and int(el.get('failures')) != nfail:
+                    ctx.failing('JUnit <%s failures="%s"> but the run has %d unmet expectations' % (el.tag, el.get('failures'), nfail), dict(info, xml=jso[:600].decode('utf-8', 'replace')), found=True)
+                if el.tag == 'testsuites' and el.get('tests') is not None and int(el.get('tests')) != len(want):
+                    ctx.failing('JUnit <testsuites tests="%s"> but there are %d test cases' % (el.get('tests'), len(want)), dict(info, xml=jso[:600].decode('utf-8', 'replace')), found=True)
         except ET.ParseError as e:
             ctx.failing('test -o junit output is not well-formed XML: %s' % e, info, found=True)
         want_code = 7 if any_failed else 0
